@@ -1,7 +1,8 @@
 /-
-Merge normalisation (C03): `mergeOverlapCells` (flatMergedCells + the selection pass, with
-object ids, mutable rect heap and the layered matrix) is the identity on a list of valid,
-pairwise disjoint rectangles.
+Merge normalisation (C03), after the repair: `mergeOverlapCells` absorbs overlapping ranges into their
+bounding box until nothing overlaps. Its result is pairwise disjoint for ANY input, covers every input
+cell, is the input itself when that is already pairwise disjoint, and the loop terminates within
+`live.length` rounds.
 -/
 import XlModel.Lemmas.Grid3
 
@@ -18,202 +19,15 @@ def ValidR (q : Rect) : Prop := q.c1 ≤ q.c2 ∧ q.r1 ≤ q.r2
 def PairwiseDisjoint (ms : List MObj) : Prop :=
   ms.Pairwise (fun a b => NoCommon a.rect b.rect) ∧ ∀ m ∈ ms, ValidR m.rect
 
-theorem NoCommon.symm {a b : Rect} (h : NoCommon a b) : NoCommon b a :=
-  fun x y hh => h x y ⟨hh.2, hh.1⟩
+/-- no two entries (at different positions) pass the interval test -/
+def DisjB (ms : List MObj) : Prop := ms.Pairwise (fun a b => meetsB a.rect b.rect = false)
 
-theorem matrix_get_none (m : Matrix) (x y : Nat) (h : ∀ l ∈ m, l.1.contains x y = false) :
-    Matrix.get m x y = none := by
-  unfold Matrix.get
-  have : m.find? (fun l => l.1.contains x y) = none := by
-    apply List.find?_eq_none.mpr
-    intro l hl; rw [h l hl]; simp
-  rw [this]
+theorem isOverlap_eq_meets (a b : Rect) : isOverlap a b = meetsB a b := by
+  simp [isOverlap, meetsB, Facts.C03.isOverlapConds, cmpOp, Rect.idx]
 
-theorem matrix_get_hit (L1 L2 : Matrix) (q : Rect) (v : Option Nat) (x y : Nat)
-    (h1 : ∀ l ∈ L1, l.1.contains x y = false) (h2 : q.contains x y = true) :
-    Matrix.get (L1 ++ (q, v) :: L2) x y = v := by
-  unfold Matrix.get
-  have : L1.find? (fun l => l.1.contains x y) = none := by
-    apply List.find?_eq_none.mpr
-    intro l hl; rw [h1 l hl]; simp
-  rw [List.find?_append, this]
-  simp [List.find?, h2]
-
-theorem tl_contains (q : Rect) (h : ValidR q) : q.contains q.c1 q.r1 = true := by
-  rw [contains_iff]; unfold ValidR at h; omega
-
-theorem flatStep_fresh (st : FlatSt) (i : Nat) (ref rect : Rect) (nid : Nat)
-    (hh : heapGet st.heap i = rect)
-    (hm : ∀ p ∈ colMajor rect, st.matrix.get p.1 p.2 = none) :
-    flatStep st i ref nid = { st with matrix := (rect, some i) :: st.matrix, cells := (i, ref) :: st.cells } := by
-  unfold flatStep
-  simp only [hh]
-  have : (colMajor rect).filterMap (fun p => st.matrix.get p.1 p.2) = [] :=
-    List.filterMap_eq_nil_iff.mpr hm
-  simp [this]
-
-abbrev IM := Nat × MObj
-
-theorem flat_fold (heap : List (Nat × Rect)) (n : Nat) :
-    ∀ (rest : List IM) (st : FlatSt), st.heap = heap →
-      (∀ im ∈ rest, heapGet heap im.1 = im.2.rect) →
-      (∀ im ∈ rest, ∀ l ∈ st.matrix, NoCommon l.1 im.2.rect) →
-      rest.Pairwise (fun a b => NoCommon a.2.rect b.2.rect) →
-      (rest.foldl (fun st (im : IM) => flatStep st im.1 im.2.ref (n + im.1)) st).heap = heap ∧
-      (rest.foldl (fun st (im : IM) => flatStep st im.1 im.2.ref (n + im.1)) st).matrix =
-        rest.reverse.map (fun im => (im.2.rect, some im.1)) ++ st.matrix ∧
-      (rest.foldl (fun st (im : IM) => flatStep st im.1 im.2.ref (n + im.1)) st).cells =
-        rest.reverse.map (fun im => (im.1, im.2.ref)) ++ st.cells := by
-  intro rest
-  induction rest with
-  | nil => intro st h _ _ _; simp [h]
-  | cons a rest ih =>
-    intro st hheap hget hmat hpw
-    obtain ⟨hpa, hpr⟩ := List.pairwise_cons.mp hpw
-    have hfresh : flatStep st a.1 a.2.ref (n + a.1) =
-        { st with matrix := (a.2.rect, some a.1) :: st.matrix, cells := (a.1, a.2.ref) :: st.cells } := by
-      apply flatStep_fresh
-      · rw [hheap]; exact hget a (by simp)
-      · intro p hp
-        apply matrix_get_none
-        intro l hl
-        have hc : a.2.rect.contains p.1 p.2 = true := by
-          rw [contains_iff]; exact (mem_colMajor _ p.1 p.2).mp hp
-        have := hmat a (by simp) l hl p.1 p.2
-        cases hlc : l.1.contains p.1 p.2 with
-        | false => rfl
-        | true => exact absurd ⟨hlc, hc⟩ this
-    simp only [List.foldl_cons, hfresh]
-    obtain ⟨i1, i2, i3⟩ := ih { st with matrix := (a.2.rect, some a.1) :: st.matrix, cells := (a.1, a.2.ref) :: st.cells }
-      hheap (fun im him => hget im (by simp [him]))
-      (by
-        intro im him l hl
-        rcases List.mem_cons.mp hl with rfl | hl
-        · exact hpa im him
-        · exact hmat im (by simp [him]) l hl)
-      hpr
-    refine ⟨i1, ?_, ?_⟩
-    · rw [i2]; simp [List.reverse_cons, List.map_append, List.append_assoc]
-    · rw [i3]; simp [List.reverse_cons, List.map_append, List.append_assoc]
-
-theorem select_fold (heap : List (Nat × Rect)) (ps : List IM)
-    (hheap : ∀ im ∈ ps, heapGet heap im.1 = im.2.rect)
-    (hpw : ps.Pairwise (fun a b => NoCommon a.2.rect b.2.rect))
-    (hvalid : ∀ im ∈ ps, ValidR im.2.rect) :
-    ∀ (rest done : List IM), ps = done ++ rest →
-      rest.foldl (fun acc (im : IM) => selectStep heap acc (im.1, im.2.ref))
-        (done.reverse.map (fun im => (im.2.rect, (none : Option Nat))) ++ ps.reverse.map (fun im => (im.2.rect, some im.1)),
-         done.reverse.map (fun im => (im.1, im.2.ref))) =
-      (ps.reverse.map (fun im => (im.2.rect, (none : Option Nat))) ++ ps.reverse.map (fun im => (im.2.rect, some im.1)),
-       ps.reverse.map (fun im => (im.1, im.2.ref))) := by
-  intro rest
-  induction rest with
-  | nil => intro done h; simp at h; subst h; rfl
-  | cons a rest ih =>
-    intro done hps
-    have ha : a ∈ ps := by rw [hps]; simp
-    obtain ⟨hpd, hpar, hcross⟩ := List.pairwise_append.mp (hps ▸ hpw)
-    obtain ⟨hpa, _⟩ := List.pairwise_cons.mp hpar
-    have hrect : heapGet heap a.1 = a.2.rect := hheap a ha
-    have hrev : ps.reverse.map (fun im => (im.2.rect, some im.1)) =
-        rest.reverse.map (fun im => (im.2.rect, some im.1)) ++ (a.2.rect, some a.1) :: done.reverse.map (fun im => (im.2.rect, some im.1)) := by
-      rw [hps]; simp [List.reverse_append, List.reverse_cons, List.map_append, List.append_assoc]
-    have hget : Matrix.get (done.reverse.map (fun im => (im.2.rect, (none : Option Nat))) ++ ps.reverse.map (fun im => (im.2.rect, some im.1)))
-        a.2.rect.c1 a.2.rect.r1 = some a.1 := by
-      rw [hrev, ← List.append_assoc]
-      apply matrix_get_hit
-      · intro l hl
-        have htl := tl_contains a.2.rect (hvalid a ha)
-        rcases List.mem_append.mp hl with hl | hl
-        · obtain ⟨b, hb, rfl⟩ := List.mem_map.mp hl
-          have hb' : b ∈ done := by simpa using hb
-          have := hcross b hb' a (by simp) a.2.rect.c1 a.2.rect.r1
-          cases hc : b.2.rect.contains a.2.rect.c1 a.2.rect.r1 with
-          | false => rfl
-          | true => exact absurd ⟨hc, htl⟩ this
-        · obtain ⟨b, hb, rfl⟩ := List.mem_map.mp hl
-          have hb' : b ∈ rest := by simpa using hb
-          have := hpa b hb' a.2.rect.c1 a.2.rect.r1
-          cases hc : b.2.rect.contains a.2.rect.c1 a.2.rect.r1 with
-          | false => rfl
-          | true => exact absurd ⟨htl, hc⟩ this
-      · exact tl_contains a.2.rect (hvalid a ha)
-    simp only [List.foldl_cons]
-    have hstep : selectStep heap
-        (done.reverse.map (fun im => (im.2.rect, (none : Option Nat))) ++ ps.reverse.map (fun im => (im.2.rect, some im.1)),
-         done.reverse.map (fun im => (im.1, im.2.ref))) (a.1, a.2.ref) =
-        ((done ++ [a]).reverse.map (fun im => (im.2.rect, (none : Option Nat))) ++ ps.reverse.map (fun im => (im.2.rect, some im.1)),
-         (done ++ [a]).reverse.map (fun im => (im.1, im.2.ref))) := by
-      unfold selectStep
-      simp only [hrect, hget]
-      simp [List.reverse_append]
-    rw [hstep]
-    exact ih (done ++ [a]) (by rw [hps]; simp)
-
-theorem heapGet_zip : ∀ (ps : List IM), (ps.map Prod.fst).Nodup →
-    ∀ im ∈ ps, heapGet (ps.map fun (im : IM) => (im.1, im.2.rect)) im.1 = im.2.rect := by
-  intro ps
-  induction ps with
-  | nil => intro _ im h; simp at h
-  | cons a ps ih =>
-    intro hnd im him
-    simp only [List.map_cons, List.nodup_cons] at hnd
-    obtain ⟨hna, hnd'⟩ := hnd
-    unfold heapGet
-    rcases List.mem_cons.mp him with rfl | him'
-    · simp [List.find?]
-    · have hne : a.1 ≠ im.1 := by
-        intro he
-        apply hna
-        rw [he]
-        exact List.mem_map.mpr ⟨im, him', rfl⟩
-      have hb : (a.1 == im.1) = false := by simpa using hne
-      simp only [List.map_cons, List.find?, hb]
-      have := ih hnd' im him'
-      unfold heapGet at this
-      exact this
-
-/-- `mergeOverlapCells` leaves a list of valid, pairwise disjoint rectangles exactly as it is
-(same entries, same order, same `Ref` and cached `rect`) -/
-theorem mergeOverlap_id (ms : List MObj) (h : PairwiseDisjoint ms) : mergeOverlapCells ms = ms := by
-  obtain ⟨hpw, hvalid⟩ := h
-  unfold mergeOverlapCells
-  have hlen : (List.range ms.length).length = ms.length := List.length_range
-  have hsnd : ((List.range ms.length).zip ms).map Prod.snd = ms := List.map_snd_zip (by omega)
-  have hfst : ((List.range ms.length).zip ms).map Prod.fst = List.range ms.length := List.map_fst_zip (by omega)
-  have hnd : (((List.range ms.length).zip ms).map Prod.fst).Nodup := by rw [hfst]; exact List.nodup_range
-  have hpw' : ((List.range ms.length).zip ms).Pairwise (fun a b => NoCommon a.2.rect b.2.rect) := by
-    have h1 : (((List.range ms.length).zip ms).map Prod.snd).Pairwise (fun a b => NoCommon a.rect b.rect) := by
-      rw [hsnd]; exact hpw
-    exact (List.pairwise_map (f := Prod.snd) (R := fun (a b : MObj) => NoCommon a.rect b.rect)).mp h1
-  have hvalid' : ∀ im ∈ (List.range ms.length).zip ms, ValidR im.2.rect := by
-    intro im him
-    apply hvalid
-    rw [← hsnd]; exact List.mem_map.mpr ⟨im, him, rfl⟩
-  have hheap := heapGet_zip _ hnd
-  simp only []
-  have hmap : (List.map (fun (x : Nat × MObj) => match x with | (i, m) => (i, m.rect)) ((List.range ms.length).zip ms)) =
-      ((List.range ms.length).zip ms).map (fun (im : IM) => (im.1, im.2.rect)) := rfl
-  obtain ⟨f1, f2, f3⟩ := flat_fold (((List.range ms.length).zip ms).map (fun (im : IM) => (im.1, im.2.rect))) ms.length
-    ((List.range ms.length).zip ms) { heap := ((List.range ms.length).zip ms).map (fun (im : IM) => (im.1, im.2.rect)) }
-    rfl hheap (by intro im _ l hl; simp at hl) hpw'
-  rw [hmap, f1, f2, f3]
-  have hsel := select_fold _ _ hheap hpw' hvalid' ((List.range ms.length).zip ms) [] (by simp)
-  simp only [List.reverse_nil, List.map_nil, List.nil_append, List.append_nil, List.map_reverse, List.reverse_reverse] at hsel ⊢
-  rw [List.foldl_map, hsel]
-  rw [← List.map_reverse, List.reverse_reverse, List.map_map]
-  conv => rhs; rw [← hsnd]
-  apply List.map_congr_left
-  intro im him
-  simp only [Function.comp]
-  rw [hheap im him]
-
-end XlModel.Grid
-
-namespace XlModel.Grid
-open XlModel
-
-/-! ### the normal form `normSpec` is pairwise disjoint -/
+theorem bbox_eq (a b : Rect) :
+    bbox a b = ⟨min a.c1 b.c1, min a.r1 b.r1, max a.c2 b.c2, max a.r2 b.r2⟩ := by
+  simp [bbox, Facts.C03.mergeCellBox, Rect.idx]
 
 theorem meetsB_comm (a b : Rect) : meetsB a b = meetsB b a := by
   unfold meetsB
@@ -231,45 +45,199 @@ theorem noCommon_of_not_meets (a b : Rect) (h : meetsB a b = false) : NoCommon a
   have : a.c1 ≤ b.c2 ∧ b.c1 ≤ a.c2 ∧ a.r1 ≤ b.r2 ∧ b.r1 ≤ a.r2 := by omega
   simp [this] at h
 
-theorem normStep_pairwise (live : List Rect) (q : Rect) (l : List Rect)
-    (hp : live.Pairwise (fun a b => meetsB a b = false)) (h : normStep live q = some l) :
-    l.Pairwise (fun a b => meetsB a b = false) := by
-  unfold normStep at h
-  simp only at h
-  split at h
-  · cases h
-  · rename_i hany
-    simp only [Option.some.injEq] at h
-    subst h
-    apply List.pairwise_append.mpr
-    refine ⟨hp.filter _, by simp, ?_⟩
-    intro a ha b hb
-    simp only [List.mem_singleton] at hb
-    subst hb
-    have := List.any_eq_false.mp (by simpa using hany) a ha
-    rw [meetsB_comm]
-    simpa using this
+/-- valid rectangles that share no cell fail the interval test -/
+theorem not_meets_of_noCommon (a b : Rect) (va : ValidR a) (vb : ValidR b) (h : NoCommon a b) :
+    meetsB a b = false := by
+  cases hm : meetsB a b with
+  | false => rfl
+  | true =>
+    exfalso
+    unfold meetsB at hm
+    have hm' : a.c1 ≤ b.c2 ∧ b.c1 ≤ a.c2 ∧ a.r1 ≤ b.r2 ∧ b.r1 ≤ a.r2 := by simpa using hm
+    unfold ValidR at va vb
+    apply h (max a.c1 b.c1) (max a.r1 b.r1)
+    constructor <;> rw [contains_iff] <;> omega
 
-theorem normSpec_aux (rs : List Rect) : ∀ (acc : Option (List Rect)) (l : List Rect),
-    (∀ live, acc = some live → live.Pairwise (fun a b => meetsB a b = false)) →
-    rs.foldl (fun acc q => match acc with
-      | some live => normStep live q
-      | none => none) acc = some l → l.Pairwise (fun a b => meetsB a b = false) := by
-  induction rs with
-  | nil => intro acc l hacc h; exact hacc l h
-  | cons q rs ih =>
-    intro acc l hacc h
-    simp only [List.foldl_cons] at h
-    apply ih _ l _ h
-    intro live hlive
-    cases acc with
-    | none => simp at hlive
-    | some live0 => exact normStep_pairwise live0 q live (hacc live0 rfl) hlive
+theorem bbox_contains_left (a b : Rect) (x y : Nat) (h : a.contains x y = true) : (bbox a b).contains x y = true := by
+  rw [contains_iff] at h ⊢; rw [bbox_eq]; simp only; omega
 
-/-- the normal form computed by `normSpec` is pairwise disjoint -/
-theorem normSpec_pairwise (rs l : List Rect) (h : normSpec rs = some l) :
-    l.Pairwise (fun a b => NoCommon a b) := by
-  have := normSpec_aux rs (some []) l (by intro live hl; cases hl; simp) h
-  exact this.imp (fun {a b} hab => noCommon_of_not_meets a b hab)
+theorem bbox_contains_right (a b : Rect) (x y : Nat) (h : b.contains x y = true) : (bbox a b).contains x y = true := by
+  rw [contains_iff] at h ⊢; rw [bbox_eq]; simp only; omega
+
+theorem foldl_bbox_contains (x y : Nat) : ∀ (hit : List MObj) (q : Rect),
+    (q.contains x y = true ∨ ∃ k ∈ hit, k.rect.contains x y = true) →
+    (hit.foldl (fun b k => bbox b k.rect) q).contains x y = true := by
+  intro hit
+  induction hit with
+  | nil => intro q h; rcases h with h | ⟨k, hk, _⟩; exact h; simp at hk
+  | cons a hit ih =>
+    intro q h
+    simp only [List.foldl_cons]
+    apply ih
+    rcases h with h | ⟨k, hk, hc⟩
+    · exact Or.inl (bbox_contains_left _ _ _ _ h)
+    · rcases List.mem_cons.mp hk with rfl | hk
+      · exact Or.inl (bbox_contains_right _ _ _ _ hc)
+      · exact Or.inr ⟨k, hk, hc⟩
+
+theorem filter_not_length (live : List MObj) (q : Rect)
+    (h : (live.filter fun k => isOverlap q k.rect).isEmpty = false) :
+    (live.filter fun k => !isOverlap q k.rect).length < live.length := by
+  apply List.length_filter_lt_length_iff_exists.mpr
+  cases hf : live.filter (fun k => isOverlap q k.rect) with
+  | nil => rw [hf] at h; simp at h
+  | cons k _ =>
+    have hk : k ∈ live.filter (fun k => isOverlap q k.rect) := by rw [hf]; simp
+    obtain ⟨h1, h2⟩ := List.mem_filter.mp hk
+    exact ⟨k, h1, by simpa using h2⟩
+
+/-- a range that overlaps nothing is appended as it is -/
+theorem absorb_fresh (n : Nat) (live : List MObj) (q : MObj)
+    (h : ∀ k ∈ live, meetsB q.rect k.rect = false) : absorb n live q = live ++ [q] := by
+  cases n with
+  | zero => rfl
+  | succ n =>
+    unfold absorb
+    have : (live.filter fun k => isOverlap q.rect k.rect) = [] := by
+      apply List.filter_eq_nil_iff.mpr
+      intro k hk; rw [isOverlap_eq_meets, h k hk]; simp
+    simp [this]
+
+/-- the result of one insertion is pairwise disjoint when the live list was -/
+theorem absorb_disj : ∀ (n : Nat) (live : List MObj) (q : MObj), live.length ≤ n → DisjB live →
+    DisjB (absorb n live q) := by
+  intro n
+  induction n with
+  | zero =>
+    intro live q hl _
+    have : live = [] := List.eq_nil_of_length_eq_zero (by omega)
+    subst this; simp [absorb, DisjB]
+  | succ n ih =>
+    intro live q hl hd
+    unfold absorb
+    simp only
+    split
+    · rename_i hemp
+      have hnil := List.isEmpty_iff.mp hemp
+      apply List.pairwise_append.mpr
+      refine ⟨hd, by simp, ?_⟩
+      intro a ha b hb
+      simp only [List.mem_singleton] at hb
+      subst hb
+      have := List.filter_eq_nil_iff.mp hnil a ha
+      rw [isOverlap_eq_meets] at this
+      rw [meetsB_comm]
+      simpa using this
+    · rename_i hne
+      have hlt := filter_not_length live q.rect (by simpa using hne)
+      exact ih _ _ (by omega) (hd.filter _)
+
+theorem mergeOverlap_disj_aux : ∀ (ms acc : List MObj), DisjB acc →
+    DisjB (ms.foldl (fun live q => absorb live.length live q) acc) := by
+  intro ms
+  induction ms with
+  | nil => intro acc h; exact h
+  | cons q ms ih => intro acc h; simp only [List.foldl_cons]; exact ih _ (absorb_disj _ acc q (Nat.le_refl _) h)
+
+/-- for ANY merge list the normalised list is pairwise disjoint -/
+theorem mergeOverlap_disj (ms : List MObj) : DisjB (mergeOverlapCells ms) :=
+  mergeOverlap_disj_aux ms [] (by simp [DisjB])
+
+/-- one insertion loses no cell -/
+theorem absorb_covers (x y : Nat) : ∀ (n : Nat) (live : List MObj) (q : MObj),
+    (q.rect.contains x y = true ∨ ∃ k ∈ live, k.rect.contains x y = true) →
+    ∃ m ∈ absorb n live q, m.rect.contains x y = true := by
+  intro n
+  induction n with
+  | zero =>
+    intro live q h
+    rcases h with h | ⟨k, hk, hc⟩
+    · exact ⟨q, by simp [absorb], h⟩
+    · exact ⟨k, by simp [absorb, hk], hc⟩
+  | succ n ih =>
+    intro live q h
+    unfold absorb
+    simp only
+    split
+    · rcases h with h | ⟨k, hk, hc⟩
+      · exact ⟨q, by simp, h⟩
+      · exact ⟨k, by simp [hk], hc⟩
+    · apply ih
+      rcases h with h | ⟨k, hk, hc⟩
+      · exact Or.inl (foldl_bbox_contains x y _ _ (Or.inl h))
+      · by_cases ho : isOverlap q.rect k.rect = true
+        · exact Or.inl (foldl_bbox_contains x y _ _ (Or.inr ⟨k, List.mem_filter.mpr ⟨hk, ho⟩, hc⟩))
+        · exact Or.inr ⟨k, List.mem_filter.mpr ⟨hk, by simpa using ho⟩, hc⟩
+
+theorem mergeOverlap_covers_aux (x y : Nat) : ∀ (ms acc : List MObj),
+    ((∃ k ∈ acc, k.rect.contains x y = true) ∨ ∃ k ∈ ms, k.rect.contains x y = true) →
+    ∃ m ∈ ms.foldl (fun live q => absorb live.length live q) acc, m.rect.contains x y = true := by
+  intro ms
+  induction ms with
+  | nil => intro acc h; rcases h with h | ⟨k, hk, _⟩; exact h; simp at hk
+  | cons q ms ih =>
+    intro acc h
+    simp only [List.foldl_cons]
+    apply ih
+    rcases h with ⟨k, hk, hc⟩ | ⟨k, hk, hc⟩
+    · exact Or.inl (absorb_covers x y _ acc q (Or.inr ⟨k, hk, hc⟩))
+    · rcases List.mem_cons.mp hk with rfl | hk
+      · exact Or.inl (absorb_covers x y _ acc k (Or.inl hc))
+      · exact Or.inr ⟨k, hk, hc⟩
+
+/-- every cell of an input range lies in some range of the normalised list -/
+theorem mergeOverlap_covers (ms : List MObj) (m : MObj) (hm : m ∈ ms) (x y : Nat)
+    (h : m.rect.contains x y = true) : ∃ m' ∈ mergeOverlapCells ms, m'.rect.contains x y = true :=
+  mergeOverlap_covers_aux x y ms [] (Or.inr ⟨m, hm, h⟩)
+
+theorem mergeOverlap_id_aux : ∀ (rest pre : List MObj), DisjB (pre ++ rest) →
+    rest.foldl (fun live q => absorb live.length live q) pre = pre ++ rest := by
+  intro rest
+  induction rest with
+  | nil => intro pre _; simp
+  | cons q rest ih =>
+    intro pre h
+    simp only [List.foldl_cons]
+    have hq : ∀ k ∈ pre, meetsB q.rect k.rect = false := by
+      intro k hk
+      have := (List.pairwise_append.mp h).2.2 k hk q (by simp)
+      rw [meetsB_comm]; exact this
+    rw [absorb_fresh _ pre q hq, ih (pre ++ [q]) (by simpa using h)]
+    simp
+
+/-- `mergeOverlapCells` leaves a list of valid, pairwise disjoint rectangles exactly as it is -/
+theorem mergeOverlap_id (ms : List MObj) (h : PairwiseDisjoint ms) : mergeOverlapCells ms = ms := by
+  have hd : DisjB ([] ++ ms) := by
+    simp only [List.nil_append, DisjB]
+    obtain ⟨hp, hv⟩ := h
+    exact hp.imp_of_mem (fun {a b} ha hb hab => not_meets_of_noCommon _ _ (hv a ha) (hv b hb) hab)
+  simpa [mergeOverlapCells] using mergeOverlap_id_aux ms [] hd
+
+/-- the `for` loop needs at most `live.length` rounds: more fuel changes nothing -/
+theorem absorb_fuel : ∀ (n m : Nat) (live : List MObj) (q : MObj), live.length ≤ n → live.length ≤ m →
+    absorb n live q = absorb m live q := by
+  intro n
+  induction n with
+  | zero =>
+    intro m live q hn _
+    have : live = [] := List.eq_nil_of_length_eq_zero (by omega)
+    subst this
+    cases m with
+    | zero => rfl
+    | succ m => simp [absorb]
+  | succ n ih =>
+    intro m live q hn hm
+    cases m with
+    | zero =>
+      have : live = [] := List.eq_nil_of_length_eq_zero (by omega)
+      subst this; simp [absorb]
+    | succ m =>
+      unfold absorb
+      simp only
+      split
+      · rfl
+      · rename_i hne
+        have hlt := filter_not_length live q.rect (by simpa using hne)
+        exact ih m _ _ (by omega) (by omega)
 
 end XlModel.Grid
